@@ -550,6 +550,12 @@ def run(ctx):
     tuple_length_probe(ctx)
     witnesses(ctx)
 
+    # extension: class instances (attributes) inside the same models - beyond the property's stated domain,
+    # recorded in the evidence file, never a violation (core.Ctx.extension; coq/theories/Obj)
+    with ctx.extension("Obj"):
+        from harness import objcommon as O
+        O.stream_c01(ctx)
+
 
 def witnesses(ctx):
     """open findings must still reproduce (else the model/finding list is out of date)"""
